@@ -310,8 +310,19 @@ def main(argv):
         lines.append(f"VIOLATION property={prop} replay={path}")
         lines.append(f"  {ghostc['disagreements'][:1]}")
         status = 1
-    if status == 0 and (undecided or vacuous or dead):
+    downgraded = False
+    if status == 0 and (vacuous or dead):
         status = 2
+    elif status == 0 and undecided:
+        # the prover could not decide some obligation (unsupported construct, solver unknown): nothing
+        # is refuted.  If the bounded stand-in ran the real code and found nothing the property held
+        # on everything explored: exit 0, but this run is evidence of level `other` (bounded), not proof
+        if bounded is not None and not bounded.get("error") and not bounded.get("violations"):
+            downgraded = True
+            lines.append(f"UNDECIDED-BY-PROVER property={prop}: {len(undecided)} obligation(s)/task(s) not decided deductively; the bounded stand-in "
+                         f"held on {bounded.get('evaluations')} evaluations - this run counts as bounded, not as proved")
+        else:
+            status = 2
     if errors:
         status = 3 if status != 1 else 1
 
@@ -347,6 +358,8 @@ def main(argv):
     # ---- evidence
     os.makedirs(EVID, exist_ok=True)
     level = cfg["level"]
+    if downgraded or (level == "proof" and n_dis != n_obl):
+        level = "other"
     trusted = list(cfg.get("trusted_base", [])) + [
         "pyvc: the interpreter's model of Python (call binding, MRO, closures, dict order) and the VC generator",
         "reals for floats, mathematical integers (IEEE rounding/overflow/inf not modelled)",
@@ -369,7 +382,7 @@ def main(argv):
         "known_findings_reported": [f["id"] for f, _, _ in known_hits],
         "dead_paths": dead,
         "samples": samples or [{"note": "all obligations were discharged by syntactic identity after AC-normalisation"}],
-        "explanation": cfg.get("explanation", ""),
+        "explanation": ("THIS RUN: some obligations were not decided deductively (see `undecided`); the verdict rests on the bounded stand-in for them - level `other` for this run. " if downgraded else "") + cfg.get("explanation", ""),
         "repo_fingerprint": source_fingerprint(),
     }
     if crosscheck is not None:
